@@ -318,3 +318,179 @@ Proof.
     destruct (negb (p_optimistic p)); cbn [b2n] in C2; lia.
   - destruct (p_am_choked p); cbn [negb andb b2n] in C2; [lia|]. destruct (negb (p_optimistic p)); cbn [b2n] in C2; lia.
 Qed.
+
+(* ---- C01 / C02: how the set of owned pieces evolves ------------------------------------------- *)
+Lemma set_nth_length {A} (l : list A) i x : length (set_nth l i x) = length l.
+Proof. revert i. induction l as [|y l IH]; intros [|i]; cbn; auto. Qed.
+
+Lemma upd_status_length st k f st' : upd_status st k f = Ok st' -> length st' = length st.
+Proof. unfold upd_status. destruct (nthN st k); [|discriminate]. intros [= <-]. apply set_nth_length. Qed.
+
+Lemma php_length m a p pick m' r bc sp : peer_handle_piece m a p pick = Ok (m', r, bc, sp) ->
+  length (m_status m') = length (m_status m).
+Proof.
+  unfold peer_handle_piece. destruct pick as [c|].
+  - destruct (Peer_no_reserve_when_choked && p_choked p); [unfold out; intros [= <- _ _ _]; reflexivity|].
+    destruct (upd_status (m_status m) c incr) as [st| | |] eqn:E; cbn [bind]; try discriminate.
+    destruct (p_choked p); [unfold out; intros [= <- _ _ _]; cbn; apply (upd_status_length _ _ _ _ E)|].
+    destruct (plen_of m c); cbn [bind]; try discriminate. unfold out. intros [= <- _ _ _]. cbn. apply (upd_status_length _ _ _ _ E).
+  - unfold out. intros [= <- _ _ _]. reflexivity.
+Qed.
+
+Theorem status_length m c pick m' r bc sp : mstep m c pick = Ok (m', r, bc, sp) -> length (m_status m') = length (m_status m).
+Proof.
+  destruct c; cbn [mstep]; unfold out;
+    try (destruct (pget (m_peers m) a) as [p|] eqn:Ep; [|discriminate]);
+    try (intros [= <- _ _ _]; reflexivity).
+  - destruct (p_piece_index p); cbn [bind]; [destruct (upd_status _ _ _) eqn:E; cbn [bind]; try discriminate; intros [= <- _ _ _]; cbn; apply (upd_status_length _ _ _ _ E) | intros [= <- _ _ _]; reflexivity].
+  - destruct pick; [destruct (upd_status _ _ _) eqn:E; cbn [bind]; try discriminate; destruct (plen_of _ _); cbn [bind]; try discriminate; intros [= <- _ _ _]; cbn; apply (upd_status_length _ _ _ _ E) | intros [= <- _ _ _]; reflexivity].
+  - destruct (len (p_pieces p) <=? i); [discriminate|]. destruct (nthN (m_status m) i); [|discriminate].
+    destruct (_ && _); [destruct (_ && _); [destruct (plen_of _ _); cbn [bind]; try discriminate; intros [= <- _ _ _]; cbn; apply set_nth_length | intros [= <- _ _ _]; reflexivity] | intros [= <- _ _ _]; reflexivity].
+  - destruct (to_vec _ _); [|discriminate]. destruct (negb _); [discriminate|]. intros [= <- _ _ _]. reflexivity.
+  - destruct (p_am_choked p); [intros [= <- _ _ _]; reflexivity|]. destruct (pieces_n m <=? i); [intros [= <- _ _ _]; reflexivity|].
+    destruct (nthN _ _); [|discriminate]. destruct (is_have _); intros [= <- _ _ _]; reflexivity.
+  - destruct (p_piece_index p) as [k|]; [|discriminate]. destruct (nthN (m_status m) k); [|discriminate].
+    destruct (peer_handle_piece _ a p pick) as [[[[m2 rep] bc2] sp2]| | |] eqn:E; cbn [bind]; try discriminate.
+    intros [= <- _ _ _]. rewrite (php_length _ _ _ _ _ _ _ _ E). cbn. apply set_nth_length.
+  - destruct (p_piece_index p) as [k|]; [|discriminate]. destruct (upd_status _ _ _) as [st| | |] eqn:E; cbn [bind]; try discriminate.
+    intros H. rewrite (php_length _ _ _ _ _ _ _ _ H). cbn. apply (upd_status_length _ _ _ _ E).
+  - unfold kill_peer. destruct (pget (m_peers m) a) as [p|]; cbn [bind].
+    + assert (HL : forall st, (match p_piece_index p with
+                              | Some i => match nthN (m_status m) i with
+                                          | Some s => Ok (if is_have s then m_status m else sset (m_status m) i Missing)
+                                          | None => Panic
+                                          end
+                              | None => Ok (m_status m)
+                              end) = Ok st -> length st = length (m_status m)).
+      { intros st. destruct (p_piece_index p); [destruct (nthN _ _) as [s|]; [|discriminate]; destruct (is_have s)|]; intros [= <-]; try reflexivity. apply set_nth_length. }
+      destruct (match p_piece_index p with Some i => _ | None => _ end) as [st| | |] eqn:E; cbn [bind]; try discriminate.
+      specialize (HL st eq_refl).
+      destruct (all_have _); [intros [= <- _ _ _]; exact HL|].
+      cbn [m_candidates]. destruct (m_candidates m); [intros [= <- _ _ _]; exact HL|].
+      unfold spawn_peer. cbn [m_candidates m_peers m_status m_round m_extracted m_plens].
+      destruct (rev (p0 :: l)) as [|[a0 id] rest]; [intros [= <- _ _ _]; exact HL|].
+      destruct (pget _ a0); intros [= <- _ _ _]; exact HL.
+    + destruct (all_have _); [intros [= <- _ _ _]; reflexivity|].
+      destruct (m_candidates m); [intros [= <- _ _ _]; reflexivity|].
+      unfold spawn_peer. destruct (rev (m_candidates m)) as [|[a0 id] rest]; [intros [= <- _ _ _]; reflexivity|].
+      destruct (pget _ a0); intros [= <- _ _ _]; reflexivity.
+Qed.
+
+Lemma missing_monotone : forall st st' : list status, length st' = length st ->
+  (forall i, have_at st i -> have_at st' i) ->
+  len (filter (fun s => negb (is_have s)) st') <= len (filter (fun s => negb (is_have s)) st).
+Proof.
+  induction st as [|s st IH]; intros [|s' st'] HL HH; cbn in HL; try discriminate; try (cbn; lia).
+  assert (Hrec : len (filter (fun s => negb (is_have s)) st') <= len (filter (fun s => negb (is_have s)) st)).
+  { apply IH; [lia|]. intros i Hi. exact (HH (S i) Hi). }
+  cbn [filter]. pose proof (HH O) as H0. unfold have_at in H0. cbn in H0.
+  destruct s; cbn [is_have negb]; destruct s'; cbn [is_have negb]; rewrite ?len_cons; try lia.
+  - specialize (H0 eq_refl). discriminate.
+  - specialize (H0 eq_refl). discriminate.
+Qed.
+
+(* the number of pieces still to obtain never increases, whatever the manager handles *)
+Theorem still_missing_nonincreasing m c pick m' r bc sp : mstep m c pick = Ok (m', r, bc, sp) ->
+  still_missing m' <= still_missing m.
+Proof.
+  intros H. unfold still_missing. apply missing_monotone; [apply (status_length _ _ _ _ _ _ _ H)|].
+  intros i Hi. exact (have_absorbing _ _ _ _ _ _ _ i H Hi).
+Qed.
+
+(* if the peer can give something the client wants, the chooser does not come back empty-handed *)
+Theorem pick_exists m p j : In j (indices m) -> eligible m p j = true -> pick_ok m p None = false.
+Proof.
+  intros Hin He. cbn [pick_ok]. apply not_true_iff_false. intros H. rewrite forallb_forall in H. specialize (H j Hin).
+  rewrite He in H. discriminate.
+Qed.
+
+(* a piece becomes owned only by PieceDone from the peer it was assigned to *)
+Theorem only_done_makes_have m c pick m' r bc sp i : mstep m c pick = Ok (m', r, bc, sp) ->
+  ~ have_at (m_status m) i -> have_at (m_status m') i ->
+  exists a p, c = CPieceDone a /\ pget (m_peers m) a = Some p /\ p_piece_index p = Some (N.of_nat i).
+Proof.
+  intros H Hn Hh.
+  assert (NoChange : m_status m' = m_status m -> False) by (intros E; rewrite E in Hh; exact (Hn Hh)).
+  assert (Upd : forall st k f, upd_status (m_status m) k f = Ok st -> (forall s, f s = Have -> s = Have) -> have_at st i -> False).
+  { intros st k f E Hf Hst. unfold upd_status, nthN in E. destruct (nth_error (m_status m) (N.to_nat k)) as [s|] eqn:Es; [|discriminate].
+    injection E as <-. unfold have_at, sset in Hst. rewrite nth_set_nth in Hst. destruct (Nat.eqb_spec (N.to_nat k) i) as [Ek|Ek].
+    - subst i. rewrite Es in Hst. injection Hst as Hst. apply Hf in Hst. subst s. exact (Hn Es).
+    - exact (Hn Hst). }
+  assert (Fincr : forall s, incr s = Have -> s = Have) by (intros []; cbn; congruence).
+  assert (Fdecr : forall s, decr s = Have -> s = Have) by (intros [|n|]; cbn; try congruence; destruct (2 <=? n); congruence).
+  assert (PHP : forall m0 a p m2 rep bc2 sp2, m_status m0 = m_status m -> peer_handle_piece m0 a p pick = Ok (m2, rep, bc2, sp2) -> have_at (m_status m2) i -> False).
+  { intros m0 a p m2 rep bc2 sp2 E0. unfold peer_handle_piece. destruct pick as [c0|].
+    - destruct (Peer_no_reserve_when_choked && p_choked p); [unfold out; intros [= <- _ _ _] Hx; cbn in Hx; rewrite E0 in Hx; exact (Hn Hx)|].
+      rewrite E0. destruct (upd_status (m_status m) c0 incr) as [st| | |] eqn:E; cbn [bind]; try discriminate.
+      destruct (p_choked p); [unfold out; intros [= <- _ _ _] Hx; cbn in Hx; exact (Upd _ _ _ E Fincr Hx)|].
+      destruct (plen_of m0 c0); cbn [bind]; try discriminate. unfold out. intros [= <- _ _ _] Hx. cbn in Hx. exact (Upd _ _ _ E Fincr Hx).
+    - unfold out. intros [= <- _ _ _] Hx. cbn in Hx. rewrite E0 in Hx. exact (Hn Hx). }
+  destruct c; cbn [mstep] in H; unfold out in H;
+    try (destruct (pget (m_peers m) a) as [p|] eqn:Ep; [|discriminate]);
+    try (injection H as <- _ _ _; exfalso; apply NoChange; reflexivity).
+  - exfalso. destruct (p_piece_index p); cbn [bind] in H; [destruct (upd_status _ _ _) eqn:E; cbn [bind] in H; try discriminate; injection H as <- _ _ _; cbn in Hh; exact (Upd _ _ _ E Fdecr Hh) | injection H as <- _ _ _; apply NoChange; reflexivity].
+  - exfalso. destruct pick; [destruct (upd_status _ _ _) eqn:E; cbn [bind] in H; try discriminate; destruct (plen_of _ _); cbn [bind] in H; try discriminate; injection H as <- _ _ _; cbn in Hh; exact (Upd _ _ _ E Fincr Hh) | injection H as <- _ _ _; apply NoChange; reflexivity].
+  - exfalso. destruct (len (p_pieces p) <=? i0); [discriminate|]. destruct (nthN (m_status m) i0) eqn:Es; [|discriminate].
+    destruct (_ && _); [destruct (_ && _); [destruct (plen_of _ _); cbn [bind] in H; try discriminate|]|]; injection H as <- _ _ _; try (apply NoChange; reflexivity).
+    cbn in Hh. unfold have_at, sset in Hh. rewrite nth_set_nth in Hh. destruct (Nat.eqb_spec (N.to_nat i0) i); [|exact (Hn Hh)].
+    unfold nthN in Es. subst i. rewrite Es in Hh. discriminate.
+  - exfalso. destruct (to_vec _ _); [|discriminate]. destruct (negb _); [discriminate|]. injection H as <- _ _ _. apply NoChange. reflexivity.
+  - exfalso. destruct (p_am_choked p); [injection H as <- _ _ _; apply NoChange; reflexivity|]. destruct (pieces_n m <=? i0); [injection H as <- _ _ _; apply NoChange; reflexivity|].
+    destruct (nthN _ _); [|discriminate]. destruct (is_have _); injection H as <- _ _ _; apply NoChange; reflexivity.
+  - (* piece done *)
+    destruct (p_piece_index p) as [k|] eqn:Ek; [|discriminate]. destruct (nthN (m_status m) k) as [sk|] eqn:Esk; [|discriminate].
+    destruct (peer_handle_piece _ a p pick) as [[[[m2 rep] bc2] sp2]| | |] eqn:E; cbn [bind] in H; try discriminate.
+    injection H as <- _ _ _.
+    destruct (Nat.eq_dec (N.to_nat k) i) as [Eki|Nki].
+    + exists a, p. split; [reflexivity|]. split; [exact Ep|]. rewrite Ek. f_equal. lia.
+    + exfalso.
+      (* another index: handle_piece's increment cannot make it Have *)
+      unfold peer_handle_piece in E. cbn [m_status with_status] in E. destruct pick as [c0|].
+      * destruct (Peer_no_reserve_when_choked && p_choked p); [unfold out in E; injection E as <- _ _ _; cbn in Hh; unfold have_at, sset in Hh; rewrite nth_set_nth in Hh; destruct (Nat.eqb_spec (N.to_nat k) i); [contradiction | exact (Hn Hh)]|].
+        destruct (upd_status (sset (m_status m) k Have) c0 incr) as [st| | |] eqn:E2; cbn [bind] in E; try discriminate.
+        assert (Hst : have_at st i -> False).
+        { intros Hx. unfold upd_status, nthN in E2. destruct (nth_error (sset (m_status m) k Have) (N.to_nat c0)) as [s|] eqn:Es; [|discriminate].
+          injection E2 as <-. unfold have_at, sset in Hx. rewrite nth_set_nth in Hx. destruct (Nat.eqb_spec (N.to_nat c0) i) as [Ec|Ec].
+          - subst i. unfold sset in Es. rewrite Es in Hx. injection Hx as Hx. apply Fincr in Hx. subst s. rewrite nth_set_nth in Es.
+            destruct (Nat.eqb_spec (N.to_nat k) (N.to_nat c0)); [contradiction | exact (Hn Es)].
+          - rewrite nth_set_nth in Hx. destruct (Nat.eqb_spec (N.to_nat k) i); [contradiction | exact (Hn Hx)]. }
+        destruct (p_choked p); [unfold out in E; injection E as <- _ _ _; cbn in Hh; exact (Hst Hh)|].
+        destruct (plen_of _ c0); cbn [bind] in E; try discriminate. unfold out in E. injection E as <- _ _ _. cbn in Hh. exact (Hst Hh).
+      * unfold out in E. injection E as <- _ _ _. cbn in Hh. unfold have_at, sset in Hh. rewrite nth_set_nth in Hh.
+        destruct (Nat.eqb_spec (N.to_nat k) i); [contradiction | exact (Hn Hh)].
+  - exfalso. destruct (p_piece_index p) as [k|]; [|discriminate]. destruct (upd_status _ _ _) as [st| | |] eqn:E; cbn [bind] in H; try discriminate.
+    unfold peer_handle_piece in H. cbn [m_status with_status] in H. destruct pick as [c0|].
+    + destruct (Peer_no_reserve_when_choked && p_choked p); [unfold out in H; injection H as <- _ _ _; cbn in Hh; exact (Upd _ _ _ E Fdecr Hh)|].
+      destruct (upd_status st c0 incr) as [st2| | |] eqn:E2; cbn [bind] in H; try discriminate.
+      assert (Hst : have_at st2 i -> False).
+      { intros Hx. unfold upd_status, nthN in E2. destruct (nth_error st (N.to_nat c0)) as [s|] eqn:Es; [|discriminate].
+        injection E2 as <-. unfold have_at, sset in Hx. rewrite nth_set_nth in Hx. destruct (Nat.eqb_spec (N.to_nat c0) i) as [Ec|Ec].
+        - subst i. rewrite Es in Hx. injection Hx as Hx. apply Fincr in Hx. subst s. exact (Upd _ _ _ E Fdecr Es).
+        - exact (Upd _ _ _ E Fdecr Hx). }
+      destruct (p_choked p); [unfold out in H; injection H as <- _ _ _; cbn in Hh; exact (Hst Hh)|].
+      destruct (plen_of _ c0); cbn [bind] in H; try discriminate. unfold out in H. injection H as <- _ _ _. cbn in Hh. exact (Hst Hh).
+    + unfold out in H. injection H as <- _ _ _. cbn in Hh. exact (Upd _ _ _ E Fdecr Hh).
+  - (* kill: statuses only go to Missing *)
+    exfalso. unfold kill_peer in H. destruct (pget (m_peers m) a) as [p|]; cbn [bind] in H.
+    + assert (HK : forall st, (match p_piece_index p with
+                              | Some i => match nthN (m_status m) i with
+                                          | Some s => Ok (if is_have s then m_status m else sset (m_status m) i Missing)
+                                          | None => Panic
+                                          end
+                              | None => Ok (m_status m)
+                              end) = Ok st -> have_at st i -> False).
+      { intros st. destruct (p_piece_index p) as [k|]; [destruct (nthN _ _) as [s|]; [|discriminate]; destruct (is_have s)|]; intros [= <-] Hx; try exact (Hn Hx).
+        unfold have_at, sset in Hx. rewrite nth_set_nth in Hx. destruct (Nat.eqb_spec (N.to_nat k) i); [|exact (Hn Hx)].
+        destruct (nth_error (m_status m) (N.to_nat k)); discriminate. }
+      destruct (match p_piece_index p with Some i => _ | None => _ end) as [st| | |] eqn:E; cbn [bind] in H; try discriminate.
+      specialize (HK st eq_refl).
+      destruct (all_have _); [injection H as <- _ _ _; exact (HK Hh)|].
+      cbn [m_candidates] in H. destruct (m_candidates m); [injection H as <- _ _ _; exact (HK Hh)|].
+      unfold spawn_peer in H. cbn [m_candidates m_peers m_status m_round m_extracted m_plens] in H.
+      destruct (rev (p0 :: l)) as [|[a0 id] rest]; [injection H as <- _ _ _; exact (HK Hh)|].
+      destruct (pget _ a0); injection H as <- _ _ _; exact (HK Hh).
+    + destruct (all_have _); [injection H as <- _ _ _; exact (Hn Hh)|].
+      destruct (m_candidates m); [injection H as <- _ _ _; exact (Hn Hh)|].
+      unfold spawn_peer in H. destruct (rev (m_candidates m)) as [|[a0 id] rest]; [injection H as <- _ _ _; exact (Hn Hh)|].
+      destruct (pget _ a0); injection H as <- _ _ _; exact (Hn Hh).
+Qed.
